@@ -17,11 +17,12 @@ CFGS = {
 
 def mc_cfg(cfgname, invariants, props=(), mod=0, writes="{40}", reads="{64}", ticks="{100}", maxbytes=40, drop=1, dup=1,
            maxnet=2, maxtime=500, writers="{1}", snoff="SnOff00", clk=0, drive="tick", forged="NoForged", spec="Spec",
-           extra="", view=True, constraint=True, maxforge=0):
+           extra="", view=True, constraint=True, maxforge=0, heal=False, paused="NoPause"):
     s = "SPECIFICATION %s\nCONSTANTS\n" % spec
     s += "  Mod = %d\n  Cfg <- %s\n  WriteSizes = %s\n  ReadSizes = %s\n  Ticks = %s\n" % (mod, CFGS.get(cfgname, cfgname), writes, reads, ticks)
     s += "  MaxBytes = %d\n  MaxDrop = %d\n  MaxDup = %d\n  MaxNet = %d\n  MaxTime = %d\n  MaxForge = %d\n" % (maxbytes, drop, dup, maxnet, maxtime, maxforge)
     s += "  Writers = %s\n  SnOff <- %s\n  ClkOff = %d\n  Drive = \"%s\"\n  Forged <- %s\n" % (writers, snoff, clk, drive, forged)
+    s += "  HealEnabled = %s\n  ReaderPaused <- %s\n" % ("TRUE" if heal else "FALSE", paused)
     s += extra
     if invariants:
         s += "INVARIANTS " + " ".join(invariants) + "\n"
@@ -212,7 +213,7 @@ def replay_cex_and_judge(v, scr, prop, cexp, cfgrec, invariants, known_map, what
     beh = dict(cfg=cfgrec, snoff=[0, 0], clk=0, steps=steps, src="tlc-counterexample:" + what)
     with open(os.path.join(ind, "core_behaviours.ndjson"), "w") as f:
         f.write(json.dumps(beh) + "\n")
-    rc, out = vlib.go_test("./coredrv", "TestCoreReplay$", dict(VERIF_IN=ind, VERIF_OUT=outd), timeout=600)
+    rc, out = vlib.go_test("./coredrv", "TestCoreReplay$", dict(VERIF_IN=ind, VERIF_OUT=outd, CORE_SETTLE=1), timeout=600)
     if rc != 0:
         raise MachineryError("counterexample replay failed to run:\n" + out[-3000:])
     before = len(v.violations) + len(v.known_hits)
@@ -224,6 +225,7 @@ def replay_cex_and_judge(v, scr, prop, cexp, cfgrec, invariants, known_map, what
 
 
 CFGRECS = {
+    "msg": dict(mtu=56, sndwnd=2, rcvwnd=2, nodelay=0, interval=100, resend=0, nc=0, stream=0, acknodelay=0),
     "stream": dict(mtu=56, sndwnd=2, rcvwnd=2, nodelay=0, interval=100, resend=0, nc=0, stream=1, acknodelay=0),
     "fastcc": dict(mtu=56, sndwnd=3, rcvwnd=3, nodelay=1, interval=10, resend=2, nc=0, stream=1, acknodelay=1),
 }
@@ -451,3 +453,70 @@ def check_c18(tier, replay):
               "RTO bounds on every observed state including runs with forged ACK timestamps/sn from boundary classes and outages "
               "of 30 s. Non-trivial = distinct (configuration, delay, drive) clean runs and behaviours containing forged ACKs"),
         assumptions=["settings fixed before traffic", "the driver flushes exactly when the core asks (interval drive) or polls Update at Check's time"])
+
+
+# C02
+def check_c02(tier, replay):
+    inv = ["C02_Drained", "C02_Drained_MsgExceedsWindow", "C02_WithinBound", "C01_Prefix", "C05_NoPanic"]
+    known = {"C02_Drained_MsgExceedsWindow": "C02/Drained_MsgExceedsWindow"}
+    spec_inv = ["DrainsWithinBound", "Prefix", "WindowDiscipline"]
+
+    def mc(th):
+        return [("mc_c02_stream.cfg", mc_cfg("stream", spec_inv, heal=True, maxbytes=80 if th else 40, maxtime=600 if th else 400,
+                                             drop=2 if th else 1, dup=1, maxnet=2), CFGRECS["stream"]),
+                ("mc_c02_msg.cfg", mc_cfg("msg", spec_inv, heal=True, writes="{40, 64}", maxbytes=104 if th else 64, maxtime=400, drop=1, dup=1,
+                                          maxnet=2), CFGRECS["msg"]),
+                ("mc_c02_fastcc.cfg", mc_cfg("fastcc", spec_inv, heal=True, ticks="{10}", maxtime=40 if th else 30, maxbytes=80, maxnet=3,
+                                             drop=2 if th else 1, dup=0), CFGRECS["fastcc"]),
+                ("mc_c02_outage.cfg", mc_cfg("stream", spec_inv, heal=True, ticks="{30000}", maxbytes=80 if th else 40,
+                                             maxtime=125000 if th else 62000, drop=3 if th else 2, dup=0, maxnet=2), CFGRECS["stream"])]
+
+    def kmc(th):
+        return [("mc_c02_known.cfg", mc_cfg("msg", ["DrainsWithinBound"], heal=True, writes="{70}", maxbytes=70, maxtime=200, drop=0, dup=0,
+                                            maxnet=2), CFGRECS["msg"])]
+
+    def sim(th):
+        return [("stream", sim_cfg("stream", 100)), ("msg", sim_cfg("msg", 100, writes="{1, 20, 40, 64}")),
+                ("fastcc", sim_cfg("fastcc", 100, ticks="{1, 10, 30}")), ("wnd1", sim_cfg("wnd1", 100)),
+                ("outage", sim_cfg("stream", 60, ticks="{100, 10000, 60000}", maxtime=3000000, drop=12))]
+    return generic_core_check(
+        "C02", tier, replay, "model_checking", mc, sim, "TestCoreReplay$|TestCoreDrive$", inv, known_map=known, known_mc=kmc,
+        rule=("TLC explores every fate assignment within the fault budget; at any reachable state the network may heal, after which the "
+              "schedule is deterministic (deliver in order, read, flush both ends every interval) and the exact timed model must be "
+              "drained within HealBound (a wedge shows as a bound violation; no liveness abstraction is needed because the healed "
+              "continuation is deterministic). On the code every replayed behaviour and every random lossy run (loss up to 40 %, "
+              "duplicates, reordering, outages to 60 s, both drives) ends with the same settling phase; the monitors require "
+              "Drained within the bound computed by TLC from the state logged at the heal instant. Non-trivial as C01"),
+        assumptions=["genuine peers", "the reader keeps reading after the heal", "bound = armed retransmission waits + probe back-off + "
+                     "(segments+4)*(3*rto+4*interval) per endpoint (generous by design)"],
+        extra_env=dict(CORE_FORGE=0, CORE_SETTLE=1), depth=100)
+
+
+# C03
+def check_c03(tier, replay):
+    inv = ["C02_Drained", "C02_Drained_MsgExceedsWindow", "C02_WithinBound", "C01_Prefix", "C04_RcvQueueBounded", "C04_RcvBufBounded",
+           "C04_SndWindow", "C05_NoPanic"]
+    known = {"C02_Drained_MsgExceedsWindow": "C02/Drained_MsgExceedsWindow"}
+    spec_inv = ["DrainsWithinBound", "Prefix", "WindowDiscipline"]
+
+    def mc(th):
+        return [("mc_c03_wnd1.cfg", mc_cfg("wnd1", spec_inv, heal=True, paused="PauseTwo", writes="{40}", maxbytes=160 if th else 120,
+                                           maxtime=2500 if th else 1500, ticks="{100, 500}", drop=3 if th else 2, dup=0, maxnet=2), None),
+                ("mc_c03_wnd2cc.cfg", mc_cfg("stream", spec_inv, heal=True, paused="PauseTwo", writes="{40}", maxbytes=160 if th else 120,
+                                             maxtime=1200 if th else 900, ticks="{100, 300}", drop=2, dup=0, maxnet=2), None),
+                ("mc_c03_fast.cfg", mc_cfg("fast", spec_inv, heal=True, paused="PauseTwo", writes="{40}", maxbytes=160, maxtime=560 if th else 520,
+                                           ticks="{10, 500}" if th else "{500}", drop=2 if th else 1, dup=0, maxnet=3), None)]
+
+    def sim(th):
+        return [("wnd1", sim_cfg("wnd1", 100, ticks="{100, 500, 5000}", maxtime=600000)),
+                ("stream", sim_cfg("stream", 100, ticks="{100, 500, 120000}", maxtime=3000000))]
+    return generic_core_check(
+        "C03", tier, replay, "model_checking", mc, sim, "TestCoreReplay$|TestCoreStall$", inv, known_map=known,
+        rule=("TLC: the receiving application does not read until the heal (receive windows 1..3, with and without congestion control), "
+              "any datagram may be lost within the budget (so in particular every WASK/WINS/ACK of an interval), the C04 bounds and "
+              "Prefix hold throughout and after the heal the transfer completes within HealBound (which includes the probe back-off). "
+              "On the code: seeded stall scenarios -- pause at a random point for 0.1 s .. 10 min of virtual time, every control-only "
+              "datagram lost during a sub-interval, windows 1..32, both drives -- then the settling phase; same monitors. "
+              "Non-trivial = every stall run (each has a distinct pause point/length/loss interval/configuration)"),
+        assumptions=["the writer is admitted like a session's Write (only while WaitSnd < snd_wnd)"],
+        extra_env=dict(CORE_FORGE=0, CORE_SETTLE=1), depth=100)
